@@ -1917,7 +1917,12 @@ func (fc *FnCtx) callMods(call *ast.CallExpr, ms *modSet, depth int) {
 		}
 		// closure variable: its body is visited where it is defined if within n; otherwise unknown
 		if id, ok := fun.(*ast.Ident); ok {
-			if _, isVar := fc.info.Uses[id].(*types.Var); isVar {
+			if v, isVar := fc.info.Uses[id].(*types.Var); isVar {
+				// a local bound exactly once to a function literal (`check := func(...) {...}`): the literal's body
+				if lit := fc.soleLiteralOf(v); lit != nil && depth < 3 {
+					fc.collectMods(lit.Body, ms, depth+1)
+					return
+				}
 				if p := fc.ctPkg(); p != nil && p.cf != nil {
 					if c, ok := p.cf.Contracts["$"+id.Name]; ok && c.HasAssigns && len(c.Assigns) == 0 {
 						return
@@ -2374,4 +2379,40 @@ func (fc *FnCtx) bumpCall(st *State, name string) {
 			st.calls[name] = "(+ " + cur + " 1)"
 		}
 	}
+}
+
+// soleLiteralOf: the function literal a local variable is bound to, if the variable is defined by `v := func...`
+// and never assigned again in the enclosing function.
+func (fc *FnCtx) soleLiteralOf(v *types.Var) *ast.FuncLit {
+	r := fc.root()
+	if r.decl == nil || r.decl.Body == nil {
+		return nil
+	}
+	var lit *ast.FuncLit
+	n := 0
+	ast.Inspect(r.decl.Body, func(x ast.Node) bool {
+		as, ok := x.(*ast.AssignStmt)
+		if !ok {
+			return true
+		}
+		for i, l := range as.Lhs {
+			id, ok := l.(*ast.Ident)
+			if !ok {
+				continue
+			}
+			if r.info.Defs[id] == v || r.info.Uses[id] == v {
+				n++
+				if i < len(as.Rhs) {
+					if fl, ok := ast.Unparen(as.Rhs[i]).(*ast.FuncLit); ok {
+						lit = fl
+					}
+				}
+			}
+		}
+		return true
+	})
+	if n == 1 {
+		return lit
+	}
+	return nil
 }
